@@ -33,6 +33,11 @@ def in_glas(p):
 
 
 def run(F, res, tier):
+    lock_rules(F, res)
+    other_rules(F, res)
+
+
+def lock_rules(F, res, w1="W1", w3="W3"):
     L = LK.LockFacts(F)
     reach_apply = L.reaches({APPLY})
     res.analysed["functions_in_glas"] = sum(1 for p in F.fns if in_glas(p))
@@ -76,7 +81,7 @@ def run(F, res, tier):
         ordn = sorted(k[3] for k in sites if k[0] == p and k[1] == ty).index(ln)
         if ty == "glas::vfs::Vfs":
             n_vfs += 1
-        res.ob("W1", "%s/%s/%s/%d" % (p.replace("glas::", ""), ty.rsplit("::", 1)[-1].rstrip(">"), mode, ordn),
+        res.ob(w1, "%s/%s/%s/%d" % (p.replace("glas::", ""), ty.rsplit("::", 1)[-1].rstrip(">"), mode, ordn),
                "while this %s guard of %s is live, no call can reach AnalysisHost::apply_change or take the same lock again"
                % (mode, ty.rsplit("::", 1)[-1]), not s["bad"], where=f.loc(ln),
                how="%d calls inside the guard's live region, none offending" % s["calls"] if not s["bad"] else "; ".join(sorted(set(s["bad"]))[:3]))
@@ -96,9 +101,13 @@ def run(F, res, tier):
                 if y not in seen:
                     seen.add(y)
                     st.append(y)
-    res.ob("W3", "lock-order-acyclic", "no lock of crate glas is acquired while another is held in an order that forms a cycle",
+    res.ob(w3, "lock-order-acyclic", "no lock of crate glas is acquired while another is held in an order that forms a cycle",
            not cyc, where="crates/glas/src/server.rs", how="edges: %s" % sorted((a.rsplit("::", 1)[-1], b_.rsplit("::", 1)[-1]) for a, b_, _ in order) if not cyc else "cycle through %s" % cyc)
 
+
+
+def other_rules(F, res):
+    L = LK.LockFacts(F)
     # ---- W2
     # the command-line entry points of the binary (no message loop) are out of scope: library crate only
     callers = [(f.path, t["ln"]) for f, b, t in F.callers_of(lambda c: c == SNAPSHOT) if f.path.startswith("glas::")]
